@@ -167,8 +167,80 @@ let mode_of (opts : int) : wdmode =
   else if opts land 0x80 <> 0 then WdImplTag
   else WdExplicit
 
+
+(* ---- whenres: WhenRes.wrun on generated dependency graphs.
+   whenres TAB #p <n:prefix expr;...> TAB #d <n=v;...> TAB <lyx commands and pseudo commands>
+     #p   conditions: expr in prefix form, tokens separated by ',': T | H<d> | E<d>.<v> | N,e | A,e,e | O,e,e
+     #d   schema defaults of the leaves
+     #new <n> <v> / #free <n>   the edit the neighbouring lyx command makes (lyd_new_path with UPDATE / lyd_free_tree)
+     val t0 ...                 missing defaults are created (flagged was-true, as lyd_new_implicit does), every present
+                                node with a condition is queued, wrun -> V0 <n=v[d];...> | VE | VSTUCK; afterwards
+                                every conditional node is flagged was-true
+   The runner keeps the world (present nodes in schema order), which nodes are default and which were true before. *)
+let parse_cexp (s : string) : cexp =
+  let toks = ref (String.split_on_char ',' s) in
+  let next () = match !toks with t :: r -> toks := r; t | [] -> raise (Tree_io "expr") in
+  let num t = nat_of_int (int_of_string t) in
+  let rec go () =
+    let t = next () in
+    match t.[0] with
+    | 'T' -> CTrue
+    | 'H' -> CHas (num (String.sub t 1 (String.length t - 1)))
+    | 'E' -> (match String.split_on_char '.' (String.sub t 1 (String.length t - 1)) with
+              | [d; v] -> CEq (num d, num v) | _ -> raise (Tree_io "expr"))
+    | 'N' -> CNot (go ())
+    | 'A' -> let a = go () in let b = go () in CAnd (a, b)
+    | 'O' -> let a = go () in let b = go () in COr (a, b)
+    | _ -> raise (Tree_io "expr") in
+  go ()
+
+let run_whenres (rest : string list) : string =
+  let prog = ref [] and dflts = ref [] in
+  let world = ref [] (* (n, v) ints, sorted by n *) and isd = ref [] and wt = ref [] and dead = ref false in
+  let out = ref [] in
+  let emit s = out := s :: !out in
+  let items s = List.filter (fun x -> x <> "") (String.split_on_char ';' s) in
+  let set n v = world := List.sort compare ((n, v) :: List.filter (fun (m, _) -> m <> n) !world) in
+  List.iter (fun cmd ->
+    if starts cmd "#p " then
+      prog := List.map (fun e -> match String.index_opt e ':' with
+        | Some i -> (int_of_string (String.sub e 0 i), parse_cexp (String.sub e (i + 1) (String.length e - i - 1)))
+        | None -> raise (Tree_io "prog")) (items (after cmd "#p "))
+    else if starts cmd "#d " then
+      dflts := List.map (fun e -> match String.split_on_char '=' e with
+        | [n; v] -> (int_of_string n, int_of_string v) | _ -> raise (Tree_io "dflt")) (items (after cmd "#d "))
+    else if !dead then ()
+    else match String.split_on_char ' ' cmd with
+      | ["#new"; n; v] ->
+          let n = int_of_string n and v = int_of_string v in
+          if not (List.mem_assoc n !world) then wt := List.filter (fun m -> m <> n) !wt;
+          set n v; isd := List.filter (fun m -> m <> n) !isd
+      | ["#free"; n] ->
+          let n = int_of_string n in
+          world := List.filter (fun (m, _) -> m <> n) !world;
+          isd := List.filter (fun m -> m <> n) !isd; wt := List.filter (fun m -> m <> n) !wt
+      | "val" :: "t0" :: _ ->
+          List.iter (fun (n, v) -> if not (List.mem_assoc n !world) then begin
+            set n v; isd := n :: !isd; wt := n :: !wt end) !dflts;
+          let q = List.filter_map (fun (n, _) ->
+            if List.mem_assoc n !prog then Some (nat_of_int n, List.mem n !wt) else None) !world in
+          let p = List.map (fun (n, c) -> (nat_of_int n, c)) !prog in
+          if not (acyclicb p) then (emit "VCYCLE"; dead := true) else
+          (match wrun p (List.map (fun (n, v) -> (nat_of_int n, nat_of_int v)) !world) q with
+           | Done w ->
+               world := List.map (fun (n, v) -> (int_of_nat n, int_of_nat v)) w;
+               isd := List.filter (fun n -> List.mem_assoc n !world) !isd;
+               wt := List.filter_map (fun (n, _) -> if List.mem_assoc n !prog then Some n else None) !world;
+               emit ("V0 " ^ String.concat "" (List.map (fun (n, v) ->
+                 Printf.sprintf "%d=%d%s;" n v (if List.mem n !isd then "d" else "")) !world))
+           | Err0 _ -> emit "VE"; dead := true
+           | Stuck -> emit "VSTUCK"; dead := true)
+      | _ -> ()) rest;
+  String.concat " | " (List.rev !out)
+
 let run (f : string list) : string =
   match f with
+  | "whenres" :: rest -> (try run_whenres rest with Tree_io m -> "E " ^ m | Failure m -> "E " ^ m)
   | "dfltm" :: rest ->
       (try
          let sch = ref [] and nt = ref [] and cur = ref [] and dead = ref false and validated = ref false in
